@@ -86,7 +86,7 @@ MAP = {
     "fusion._rms_normalization.RmsNormFusion2": ("fusion", "C05_fusion", ["C05_fusion_rms_norm"]),
     "fusion._rotary_embedding.RotaryEmbedding23": ("fusion", "C05_fusion", ["C05_fusion_rotary_embedding", "C05_fusion_rotary_near_misses"]),
     "fusion._rotary_embedding.PartialRotaryEmbedding23Fusion": ("fusion", "C05_fusion", ["C05_fusion_partial_rotary_embedding", "C05_fusion_rotary_near_misses"]),
-    "fusion._gqa.ONNXGQA": ("fusion", "C05_fusion", ["C05_fusion_gqa_values_partial", "C05_fusion_gqa_side_condition"]),
+    "fusion._gqa.ONNXGQA": ("fusion", "C05_fusion", ["C05_fusion_gqa_values_partial", "C05_fusion_gqa_values_total_partial", "C05_fusion_gqa_check_sufficient"]),
 }
 
 
